@@ -45,17 +45,17 @@ Theorem C07_label_order_independent : forall L (eqb leb : L -> L -> bool),
 Proof. intros L eqb leb T Tr An. split; [reflexivity|]. exact (fit_labels_order_independent L leb T Tr An). Qed.
 
 (* an unseeded entropy read would let two equal-seed runs differ (why the fact is needed) *)
-Theorem C07_entropy_admits_difference : forall value (v1 v2 : value), v1 <> v2 ->
+Theorem C07_entropy_allows_difference : forall value (v1 v2 : value), v1 <> v2 ->
   exists (o : op loc value) (s1 s2 : store loc value), s1 LIn = s2 LIn /\ s1 LG = s2 LG /\ s1 LState = s2 LState /\
     In LE (reads o) /\ exec_op loc loc_eqb value o s1 LResult <> exec_op loc loc_eqb value o s2 LResult.
-Proof. exact entropy_admits_difference. Qed.
+Proof. exact entropy_allows_difference. Qed.
 
 Print Assumptions C07_seeded_first.
 Print Assumptions C07_sampling_reads_fields_and_stream_only.
 Print Assumptions C07_no_hash_ordered_iteration.
 Print Assumptions C07_label_order_independent.
 Print Assumptions C07_reproducible.
-Print Assumptions C07_entropy_admits_difference.
+Print Assumptions C07_entropy_allows_difference.
 
 (* state shared between objects (regenerated scan of the whole package: memoising decorators, mutable class attributes of non-pydantic classes, module-level
    containers mutated by functions): there is none - the k-th run in an interpreter is the first run: nothing memoised on a function object or kept on a class / module survives a call *)
